@@ -13,6 +13,10 @@ CLAUSE = ("every network / network-id / programme-id / aspect announcement (vbi_
 CLAUSE = CLAUSE + (" (RF-NEG) in the announcing decoders (parse_bsd, parse_8_30, vbi_decode_vps, vbi_decode_wss_625) no Hamming / "
                    "parity decode result reaches the stored last-received id (the value the debounce compares) before a `< 0` "
                    "test of it or of an OR-accumulation of it - an uncorrectable byte never takes part in 'received twice'.")
+CLAUSE = CLAUSE + (" In vbi_event_enable every reset action (network record, Teletext, caption, triggers, programme info) is "
+                   "conditional on the *newly activated* event bits (`activate`), never on the whole mask, so registering another "
+                   "handler does not forget the station that was already announced; in xds_decoder a change of the call letters "
+                   "re-arms the network name debounce (name cleared together with the cycle).")
 NOT_DECIDED = ("that the event carries exactly the transmitted values (value fidelity), exactly-one event under interleaved "
                "carriers, the XDS carrier's missing `id != nuid` test (XDS is checksum protected and not among the four "
                "carriers the statement quantifies over; recorded as a note).")
@@ -283,6 +287,8 @@ def run(ctx, run):
                       witness={"function": "vbi_chsw_reset"})
 
     _decode_discipline(ctx, run)
+    _activation_only(ctx, run)
+    _call_letters_rearm(ctx, run)
     run.floor("NETWORK_ID announcement sites", n_sites["NETWORK_ID"], 4)
     run.floor("NETWORK announcement sites", n_sites["NETWORK"], 4)
     run.floor("vbi_chsw_reset call sites", n_sites["chsw"], 6)
@@ -428,3 +434,54 @@ def _decode_discipline(ctx, run):
             run.holds("RF-NEG", "RF-NEG:%s" % name, "%d decode call site(s): every stored id is behind the `< 0` test of its bytes"
                       % a.n_sources, "%s:%d" % (f.file, f.line))
     run.floor("decode call sites in the announcing decoders", n, 2)
+
+
+def _activation_only(ctx, run):
+    f = ctx.prog.need("vbi_event_enable", "src/vbi.c")
+    run.touch(f)
+    n = 0
+    for bid, i in flow.all_events(f):
+        e = f.exprs[i]
+        if e["k"] != "call" or e.get("callee") not in ("memset", "vbi_teletext_channel_switched", "vbi_caption_channel_switched",
+                                                        "vbi_trigger_flush", "vbi_reset_prog_info"):
+            continue
+        n += 1
+        ats = atoms.atoms_at(f, i)
+        ok = any("activate" in a.L.locals for a in ats)
+        key = "RF-DOM:vbi_event_enable:%s:on-activation-only" % e["callee"]
+        if ok:
+            run.holds("RF-DOM", key, "`%s` runs only for newly activated event bits" % ex.pretty(f, i)[:50], ex.loc(f, i))
+        else:
+            run.violation("RF-DOM", key, "`%s` is not conditional on the newly activated bits (`activate`): every later handler "
+                          "registration or removal, for any event, repeats the reset - the identified station is forgotten, "
+                          "announced again, and the next station change no longer drops the cache" % ex.pretty(f, i)[:60],
+                          ex.loc(f, i), witness={"dominating": [repr(a) for a in ats]})
+    run.floor("reset actions in vbi_event_enable", n, 5)
+
+
+def _call_letters_rearm(ctx, run):
+    f = ctx.prog.need("xds_decoder", "src/caption.c")
+    run.touch(f)
+    n = 0
+    for bid, i in flow.all_events(f):
+        if not atoms.store_to_field(F_CYCLE, 0)(f, i):
+            continue
+        ats = atoms.atoms_at(f, i)
+        # the call-letters case: dominated by a non-zero xds_strfu (n->call, ...) result
+        if not any("xds_strfu" in a.L.calls and "call" in ex.pretty(f, a.L.node) for a in ats if a.L.node is not None):
+            continue
+        n += 1
+        blk = flow.events(f, bid)
+        ok = False
+        for j in blk:
+            for lhs, var, op, rhs in flow.stores(f, j):
+                if lhs is not None and op == "=" and ex.const(f, rhs) == 0 and ".name[0]" in (ex.pretty(f, lhs) + "").replace("->", "."):
+                    ok = True
+        key = "RF-CORR:xds_decoder:call-letters-rearm-name"
+        if ok:
+            run.holds("RF-CORR", key, "a change of the call letters clears the stored network name together with the cycle", ex.loc(f, i))
+        else:
+            run.violation("RF-CORR", key, "when the call letters change the cycle is reset but the stored network name is kept: a station "
+                          "with the same network name and other call letters is taken for the one already announced, no NETWORK "
+                          "event is sent and the old station's cache survives", ex.loc(f, i))
+    run.floor("call-letter change sites", n, 1)
